@@ -800,15 +800,19 @@ def check_C07(tier):
         rep.add(cfg + " cut-offs", obs)
     mm = [("dbg", "valid"), ("rel", "valid")]
     ccl = ["default", "compact"] if tier == "quick" else E4_CONFIGS
-    results = run_jobs(_root_jobs(cl, mm) + _cutoff_jobs(ccl))
+    slow_jobs = [{"config": c, "mode": "dbg", "model": "valid", "kind": "fn", "target": "minimal_lexical::slow::slow", "post": "slow"} for c in ccl]
+    results = run_jobs(_root_jobs(cl, mm) + _cutoff_jobs(ccl) + slow_jobs)
     cfx = F.build_many([(c, "rel") for c in ccl if (c, "rel") not in fx])
     fx.update(cfx)
     fxs = {"%s/%s" % (c, m): fx[(c, "rel")] for c in cl for m, _ in mm}
     fxs.update({"%s early-outs" % c: fx[(c, "rel")] for c in ccl})
-    _e4_report(rep, "C07", [r for r in results if r["job"].get("post") != "cutoff"], lambda j: "%s/%s" % (j["config"], j["mode"]), fxs,
+    _e4_report(rep, "C07", [r for r in results if r["job"].get("post") not in ("cutoff", "slow")], lambda j: "%s/%s" % (j["config"], j["mode"]), fxs,
                fn_filter=lambda o: o["fn"].startswith(EXP_FNS), floor_per_group=10)
     _e4_report(rep, "C11", [r for r in results if r["job"].get("post") == "cutoff"], lambda j: "%s early-outs" % j["config"], fxs,
                fn_filter=lambda o: o["kind"].startswith("post:"), floor_per_group=3)
+    fxs.update({"%s slow path" % c: fx[(c, "rel")] for c in ccl})
+    _e4_report(rep, "C11", [r for r in results if r["job"].get("post") == "slow"], lambda j: "%s slow path" % j["config"], fxs,
+               fn_filter=lambda o: o["kind"].startswith("post:slow"), floor_per_group=2)
     rep.analysed["configurations"] = cl
     rep.analysed["exponent_bookkeeping_functions"] = list(EXP_FNS)
     rep.note("NOT decided: correct rounding of subnormals and the exact overflow threshold")
@@ -816,7 +820,8 @@ def check_C07(tier):
         "other",
         "(1) Cut-off rules: the decimal-exponent constants imply zero/infinity, and (E4 post-condition) every call-free exit of compute_float / "
         "bellerophon that returns a literal zero or infinity is implied by the exponent bound of its own path (10^q_lo >= 2^(bias+1), "
-        "2^64*10^q_hi <= 2^(-bias-p)) -- the comparison operators, not only the constants. (2) No wrap-around in exponent "
+        "2^64*10^q_hi <= 2^(-bias-p)) -- the comparison operators, not only the constants; slow::<F> decides only through the big-integer comparison, "
+        "or by an early zero/infinity that the scientific exponent of its path implies. (2) No wrap-around in exponent "
         "bookkeeping: in the functions that compute the decimal exponent (parse::*, number::*, slow::slow, slow::scientific_exponent) every narrowing "
         "integer cast is value-preserving and every non-wrapping_* `+ - *` cannot overflow, for every valid input with lengths below 2^62 and any i32 "
         "exponent, in debug and release MIR.",
